@@ -3,7 +3,7 @@ generated code (injector arguments, predeclared variables of async injectors, re
 package-qualified types, aliased imports, pointers, slices, arrays, maps, channels, function types (incl.
 variadic), struct and interface literals and generic instances; plus user identifiers chosen to collide with
 the names the generator derives."""
-import os, shutil
+import os, re, shutil
 from . import common as C
 
 # (label, type expression as written in package p, imports needed by the *user* file (path -> alias or None))
@@ -282,6 +282,10 @@ def render_multi(root, rng, ncases):
             d = os.path.join(root, base, "sh", pn)
             os.makedirs(d, exist_ok=True)
             open(os.path.join(d, "x.go"), "w").write("package %s\n\ntype %s struct{ N int }\n\nfunc New() *%s { return &%s{} }\n" % (pn, tn, tn, tn))
+        # a second package that is also called `config` (another path, another type)
+        d = os.path.join(root, base, "sh2", "config")
+        os.makedirs(d, exist_ok=True)
+        open(os.path.join(d, "x.go"), "w").write("package config\n\ntype Other struct{ N int }\n\nfunc New() *Other { return &Other{} }\n")
         npk = rng.randint(2, 4)
         files, pkgs = [], []
         for i in range(npk):
@@ -302,6 +306,16 @@ def render_multi(root, rng, ncases):
                 imports.append('\t%s"e2e/%s/sh/%s"' % ("" if alias == pn else alias + " ", base, pn))
                 provs.append("kessoku.Provide(%s.New)" % alias)
                 params.append("a%d *%s.%s" % (len(params), alias, tn))
+            foreign = []                       # (alias, type name): candidates for a foreign result type
+            for pn in uses:
+                pass
+            if rng.chance(0.4):
+                # the other package named `config`: under its own name when the first is not imported, else aliased
+                al2 = "config" if ("config" not in uses and rng.chance(0.5)) else "cfgb"
+                imports.append('\t%s"e2e/%s/sh2/config"' % ("" if al2 == "config" else al2 + " ", base))
+                provs.append("kessoku.Provide(%s.New)" % al2)
+                params.append("a%d *%s.Other" % (len(params), al2))
+                foreign.append((al2, "Other"))
             # identifiers equal to what the allocator would derive for its variables
             for extra in ("settings0", "config0", "svc", "svc0", "store0"):
                 if rng.chance(0.25):
@@ -311,6 +325,12 @@ def render_multi(root, rng, ncases):
                 provs = ["kessoku.Async(%s)" % p for p in provs]
             src = "package p%d\n\nimport (\n%s\n\t\"github.com/mazrean/kessoku\"\n)\n\n%s\n\ntype Svc struct{ n int }\n\nfunc NewSvc(%s) *Svc { return &Svc{} }\n\nvar _ = kessoku.Inject[*Svc](\"Init\", %s, kessoku.Provide(NewSvc))\n" % (
                 i, "\n".join(imports), "\n".join(decls), ", ".join(params), ", ".join(provs))
+            # a further injector whose result type lives in an imported package (spelled through the import's local name)
+            for m_ in re.finditer(r"a\d+ \*(\w+)\.(\w+)", ", ".join(params)):
+                foreign.append((m_.group(1), m_.group(2)))
+            if foreign and rng.chance(0.6):
+                al, tn = rng.choice(sorted(set(foreign)))
+                src += "\nvar _ = kessoku.Inject[*%s.%s](\"InitF\", %s)\n" % (al, tn, ", ".join(provs))
             open(os.path.join(d, "k.go"), "w").write(src)
             files.append("%s/p%d/k.go" % (base, i))
             pkgs.append("./%s/p%d/" % (base, i))
